@@ -25,3 +25,50 @@ SPECS["C27"] = dict(
     stubs=["libc strtoll/tolower/isdigit models (glibc semantics, C locale)", "debugs() disabled"],
     outside="digit strings longer than the stated families; non-C locales; httpHeaderParseInt (atoi-based, int result) is outside: it is not a 64-bit parser",
 )
+
+SPECS["C36"] = dict(
+    harness="C36_base64.cc", units=[],
+    entries=dict(
+        quick=[dict(name="c36_roundtrip", bounds="all inputs of 0..9 bytes (fully symbolic), encoder fed in two pieces at every split point", reach=["done"], sample_every=3),
+               dict(name="c36_decode_arbitrary", bounds="all encodings of 1..5 arbitrary bytes; output buffer of exactly BASE64_DECODE_LENGTH", reach=["accepted", "rejected"])],
+        thorough=[dict(name="c36_roundtrip", bounds="all inputs of 0..12 bytes", reach=["done"], sample_every=3),
+                  dict(name="c36_decode_arbitrary", bounds="all encodings of 1..6 arbitrary bytes", reach=["accepted", "rejected"])]),
+    timeout=dict(quick=240, thorough=1500),
+    stubs=["HAVE_NETTLE_BASE64_H forced to 0 in the harness TU: the bundled lib/base64.cc is what is encoded (this build links libnettle instead, a binary that cannot be encoded)"],
+    outside="inputs longer than the bounds; libnettle's implementation used by this particular build; Auth::Basic::Config::decode (user/password split) not yet encoded",
+)
+SPECS["C31"] = dict(
+    harness="C31_pct.cc", units=TOK + ["src/anyp/Uri.cc", "lib/rfc1738.cc"],
+    entries=dict(
+        quick=[dict(name="c31_uri_roundtrip", bounds="all byte strings of 0..3 bytes; ignore set in {unreserved, empty, all-but-%}", reach=["done"]),
+               dict(name="c31_uri_decode_arbitrary", bounds="all inputs of 0..4 bytes", reach=["accepted", "rejected"]),
+               dict(name="c31_rfc1738_roundtrip", bounds="all NUL-free strings of 0..3 bytes, 4 flag sets that escape '%', static buffer reuse after a 0/1-byte call", reach=["done"]),
+               dict(name="c31_rfc1738_unescape_arbitrary", bounds="all NUL-free strings of 0..4 bytes in an exact-size heap buffer", reach=["done"])],
+        thorough=[dict(name="c31_uri_roundtrip", bounds="0..5 bytes", reach=["done"]),
+                  dict(name="c31_uri_decode_arbitrary", bounds="0..6 bytes", reach=["accepted", "rejected"]),
+                  dict(name="c31_rfc1738_roundtrip", bounds="0..5 bytes", reach=["done"]),
+                  dict(name="c31_rfc1738_unescape_arbitrary", bounds="0..5 bytes", reach=["done"])]),
+    timeout=dict(quick=300, thorough=1800),
+    stubs=["vsnprintf model for %%%02X", "memAllocBuf rounding as mem/old_api.cc"],
+    outside="longer strings; ignore sets containing '%' (caller contract); RFC1738_ESCAPE_NOPERCENT (input declared already escaped)",
+)
+SPECS["C32"] = dict(
+    harness="C32_html.cc", units=SBUF + ["src/html/Quoting.cc"],
+    entries=dict(
+        quick=[dict(name="c32_html_quote", bounds="two consecutive calls: NUL-free strings of 0..1 then 0..3 bytes (covers static buffer reuse/growth)", reach=["done"])],
+        thorough=[dict(name="c32_html_quote", bounds="two consecutive calls: 0..1 then 0..5 bytes", reach=["done"])]),
+    timeout=dict(quick=240, thorough=1500),
+    stubs=["vsnprintf model for &#%d;"],
+    outside="strings longer than the bound",
+)
+SPECS["C52"] = dict(
+    harness="C52_math.cc", units=[], o0_units=["HARNESS"], ub=True, ub_files=["SquidMath.h"],
+    entries=dict(
+        quick=[dict(name="c52_less", bounds="Less<A,B> for all 64 pairs of {u,}int{8,16,32,64}_t, arguments fully symbolic (entire value range)", reach=["done"]),
+               dict(name="c52_sums", bounds="34 instantiations of NaturalSum/SetToNaturalSumOrMax/IncreaseSum (2 and 3 arguments), arguments fully symbolic", reach=["done"])],
+        thorough=[dict(name="c52_less", bounds="same (already the entire value range)", reach=["done"]),
+                  dict(name="c52_sums", bounds="same (already the entire value range)", reach=["done"])]),
+    timeout=dict(quick=240, thorough=900),
+    stubs=[],
+    outside="instantiations other than the listed ones; Math::intPercent and friends (floating point)",
+)
